@@ -59,6 +59,10 @@ def run(ctx):
         maximal = direct + queued
         for h in maximal:
             stim.append({"t": len(stim) + 1, "maxr": maxr, "at": 2, "steps": h})
+        # the first transmission refused by the network (transient write error), then sweeps over the whole retransmission span
+        for ticks in ([3, 5, 7, 9, 13, 17, 33, 65], [3], [65], []):
+            stim.append({"t": len(stim) + 1, "maxr": maxr, "at": 2, "steps": [{"a": "wfail", "t": 0}] + [{"a": "tick", "t": t} for t in ticks]})
+            ctx.cov["histories_first_write_fails"] = ctx.cov.get("histories_first_write_fails", 0) + 1
         # the same parameters as configured through the options (option plumbing): the library's own client
         # (udp.Dial, options.WithTransmission) and a server-side connection of a real udp server, over loopback sockets
         plain = [h for h in direct if all(a["a"] != "queue" for a in h)]
